@@ -39,6 +39,12 @@ class RemoveLiteralStatements(SuiteTransformer):
                 node.body = [self.visit(a) for a in node.body]
                 return node
 
+        for child in ast.walk(node):
+            if isinstance(child, ast.Name) and child.id == '__doc__':
+                # Names have not been bound yet when this transform runs, so look for the name itself
+                node.body = [self.visit(a) for a in node.body]
+                return node
+
         node.body = self.suite(node.body, parent=node)
         return node
 
